@@ -128,14 +128,14 @@ ABSTRACT_ATTRS = ["k", "l"]
 
 
 class KeyMap:
-    def __init__(self, rng: random.Random, concrete: bool):
+    def __init__(self, rng: random.Random, concrete: bool, prefix_family: bool = False):
         if concrete:
             ks = rng.sample(KEY_POOL, len(ABSTRACT_KEYS))
             aks = rng.sample(KEY_POOL, len(ABSTRACT_ATTRS))
             if rng.random() < 0.35:
                 # one name that merely contains reserved-looking text
                 ks[rng.randrange(len(ks))] = rng.choice([x for x in LOOKALIKES if x not in ks] or LOOKALIKES)
-            if rng.random() < 0.4:
+            if rng.random() < 0.4 or prefix_family:
                 # sibling names one of which is a proper prefix of the other (run1 / run10)
                 base = rng.choice(["run1", "a", "x-", "d.0", KEY_POOL[rng.randrange(len(KEY_POOL))][:20]])
                 fam = [base, base + rng.choice(["0", "b", "_x", ".", "1"]), base + rng.choice(["00", "bb", "-y"])]
